@@ -161,18 +161,17 @@ func pairList(m map[string]string) string {
 
 // scopeOptionSets: option sets for which the rule "which table entries the templates declare"
 // (tflags in Corr/C01.v) has been established.
-func scopeFlags(be string) (processor, serdes, slim, ok bool) {
-	lang, opts := be[:strings.IndexByte(be, ':')], be[strings.IndexByte(be, ':')+1:]
-	processor, serdes, ok = true, true, true
-	_ = lang
+func scopeFlags(be string) (processor, synth, serdes, slim, ok bool) {
+	opts := be[strings.IndexByte(be, ':')+1:]
+	processor, synth, serdes, ok = true, true, true, true
 	for _, o := range strings.Split(opts, ",") {
 		switch {
 		case o == "template=slim":
-			slim, processor, serdes = true, false, false
+			slim, processor, synth, serdes = true, false, false, false
 		case o == "no_processor":
 			processor = false
 		case o == "no_default_serdes":
-			serdes = false
+			processor, serdes = false, false
 		case o == "reorder_fields", o == "thrift_streaming", o == "streamx", o == "code_ref", o == "enable_nested_struct", o == "trim_idl", o == "skip_empty":
 			// field order / streaming signatures / reference files / embedded fields change what is declared: not compared
 			ok = false
@@ -183,7 +182,7 @@ func scopeFlags(be string) (processor, serdes, slim, ok bool) {
 
 // scopeCasesFor builds the scope cases of one accepted run. outdir is the -o directory.
 func scopeCasesFor(p Prog, src, be, outdir string) (cases []ScopeCase, terms []string, err error) {
-	processor, serdes, slim, ok := scopeFlags(be)
+	processor, synth, serdes, slim, ok := scopeFlags(be)
 	if !ok {
 		return nil, nil, nil
 	}
@@ -264,9 +263,9 @@ func scopeCasesFor(p Prog, src, be, outdir string) (cases []ScopeCase, terms []s
 		}
 		feat := map[string]bool{"keep_unknown_fields": ft.KeepUnknownFields, "gen_deep_equal": ft.GenDeepEqual, "gen_setter": ft.GenerateSetter,
 			"enable_nested_struct": ft.EnableNestedStruct, "compatible_names": ft.CompatibleNames}
-		term := fmt.Sprintf("ScopeCase (Features %s %s %s %s %s) (TFlags %s %s %s)\n  %s\n  %s\n  %s\n  %s\n  %s",
+		term := fmt.Sprintf("ScopeCase (Features %s %s %s %s %s) (TFlags %s %s %s %s)\n  %s\n  %s\n  %s\n  %s\n  %s",
 			coqfmt.Bool(ft.KeepUnknownFields), coqfmt.Bool(ft.GenDeepEqual), coqfmt.Bool(ft.GenerateSetter), coqfmt.Bool(ft.EnableNestedStruct), coqfmt.Bool(ft.CompatibleNames),
-			coqfmt.Bool(processor), coqfmt.Bool(serdes), coqfmt.Bool(slim),
+			coqfmt.Bool(processor), coqfmt.Bool(synth), coqfmt.Bool(serdes), coqfmt.Bool(slim),
 			pairList(idt), pairList(lft), coqfmt.List(files), bytesList(pkg.Idents), coqfmt.List(types))
 		cases = append(cases, ScopeCase{Kind: "scope", Prog: p, Backend: be, Dir: rel, IDL: names, Features: feat, Declared: pkg, Identify: idt})
 		terms = append(terms, term)
@@ -288,7 +287,7 @@ type RejectCase struct {
 }
 
 func rejectCaseFor(p Prog, src, be, output string) (*RejectCase, string, error) {
-	if _, _, _, ok := scopeFlags(be); !ok {
+	if _, _, _, _, ok := scopeFlags(be); !ok {
 		return nil, "", nil
 	}
 	ast, err := frontEnd(src, p.Main)
@@ -355,11 +354,11 @@ func rejectCaseFor(p Prog, src, be, output string) (*RejectCase, string, error) 
 // scopeSelected samples the accepted runs that get scope cases.  Quick tier: the small corpus
 // programs under every option set, the large naming corpus under a rotating third and the
 // generated programs under a rotating quarter of the option sets; thorough tier: corpus under
-// every option set, generated programs under every second one.
+// every option set, generated programs under every fifth one.
 func scopeSelected(tier string, p Prog, pi, oi int) bool {
 	corpus := strings.HasPrefix(p.Name, "corpus-")
 	if tier == "thorough" {
-		return corpus || (pi+oi)%2 == 0
+		return corpus || (pi+oi)%5 == 0
 	}
 	if corpus && p.Name != "corpus-naming" {
 		return true
